@@ -147,6 +147,9 @@ def mate_case(draw):
     case["pc0"] = draw(st.sampled_from([0, 0, 7, 12345, 9990000, 9999995, 10 ** 7, 123456789]))
     case["fc0"] = draw(st.sampled_from([0, 0, 3, 4000]))
     case["second_call"] = draw(st.booleans())
+    # between the two calls the parents' crossover-probability array may be edited IN PLACE (same array object): the second
+    # call must honour the probabilities the matrix holds at that time
+    case["edit_xoprob_between_calls"] = draw(st.lists(st.tuples(st.integers(0, 10 ** 6), st.sampled_from([0.0, 0.0, 0.5, 0.3])).map(list), max_size=4))
     case["miscout"] = draw(st.booleans())
     return case
 
@@ -203,28 +206,41 @@ def check_mate(case, ctx):
     ctx.label("negative_parent_index", bool(case.get("negative_index")))
 
     outs = []
+    xoprob_by_call = [xoprob.copy()]      # crossover probabilities in force at each call
     pc, fc = case["pc0"], case["fc0"]
     for call in range(2 if case["second_call"] else 1):
         kw = {}
         if case["miscout"]:
             kw["miscout"] = {}
         out = mp.mate(pg, xconfig, _arg(case["nmating"]), _arg(case["nprogeny"]), nself=nself, **kw)
-        outs.append((out, pc, fc))
+        outs.append((out, pc, fc, gens.snapshot(out, gens.VRNT_FIELDS + gens.VRNT_GRP_FIELDS)))
         N = sum(a * b for a, b in zip(nm, npg))
         # counters advanced by exactly what was produced
         ctx.check(mp.progeny_counter == pc + N, "counters.progeny", "progeny_counter=%s expected %s" % (mp.progeny_counter, pc + N))
         ctx.check(mp.family_counter == fc + ncross, "counters.family", "family_counter=%s expected %s" % (mp.family_counter, fc + ncross))
         pc, fc = pc + N, fc + ncross
+        if call == 0 and case["second_call"] and case.get("edit_xoprob_between_calls"):
+            live = pg.vrnt_xoprob                      # the array the public getter hands out
+            for (jraw, val) in case["edit_xoprob_between_calls"]:
+                live[jraw % p] = val
+            xoprob_by_call.append(numpy.array(live, dtype="float64"))
+            ctx.label("xoprob_edited_in_place_between_calls")
+        else:
+            xoprob_by_call.append(xoprob_by_call[-1])
 
     # inputs untouched --------------------------------------------------------------------------------------------
     ctx.check((pg.mat == snap_mat).all(), "parents.genotypes_modified")
+    if len(xoprob_by_call) > 1:
+        snap["vrnt_xoprob"] = xoprob_by_call[min(len(outs), len(xoprob_by_call)) - 1].copy()   # the harness' own in-place edit
     bad = gens.diff_snapshot(snap, pg)
     ctx.check(not bad, "parents.metadata_modified", str(bad))
     ctx.check((xconfig == xsnap).all(), "xconfig_modified")
 
     allnames = []
     any_nontrivial = False
-    for (out, pc0, fc0) in outs:
+    for oi, (out, pc0, fc0, outmeta) in enumerate(outs):
+        xoprob = xoprob_by_call[oi]
+        snap["vrnt_xoprob"] = xoprob_by_call[oi].copy()
         g = out.mat
         N = sum(a * b for a, b in zip(nm, npg))
         if not ctx.check(g.ndim == 3 and g.shape == (2, N, p), "count.ntaxa", "shape %s expected (2,%d,%d)" % (g.shape, N, p)):
@@ -276,13 +292,15 @@ def check_mate(case, ctx):
         else:
             ctx.fail("taxa_not_grouped", "mate() output does not report grouped taxa")
         # marker metadata carried
+        # (the progeny's metadata as it was when mate() returned: the arrays may be shared with the parents, and the harness
+        # itself edits the parents' crossover probabilities in place between two calls)
         for f in gens.VRNT_FIELDS:
-            same = gens.same_array(snap[f], getattr(out, f))
+            same = gens.same_array(snap[f], outmeta[f])
             if not same and f in ("vrnt_hapalt", "vrnt_hapref") and ctx.known("F-C01-a", True):
                 continue
-            ctx.check(same, "metadata.%s" % f, lambda: "input %s output %s" % (snap[f], getattr(out, f)))
+            ctx.check(same, "metadata.%s" % f, lambda: "input %s output %s" % (snap[f], outmeta[f]))
         for f in gens.VRNT_GRP_FIELDS:
-            ctx.check(gens.same_array(snap[f], getattr(out, f)), "metadata.%s" % f)
+            ctx.check(gens.same_array(snap[f], outmeta[f]), "metadata.%s" % f)
 
         # ---- provenance ----------------------------------------------------------------------------------------
         for i in range(N):
